@@ -18,8 +18,8 @@
 package schedulers
 
 //@ opaque (*balancePlan).shouldBalance, github.com/tikv/pd/server/schedule/filter::NewPlacementSafeguard, github.com/tikv/pd/server/schedule/filter::NewRegionScoreFilter, github.com/tikv/pd/server/schedule/filter::NewSpecialUseFilter, github.com/tikv/pd/server/schedule/filter::RegionScoreComparer, github.com/tikv/pd/server/schedule/operator::CreateMovePeerOperator, (*balanceRegionScheduler).GetName
-//@ pure sid(s *core.StoreInfo) = ite(s.meta == nil, 0, s.meta.Id)
-//@ pure sstate(s *core.StoreInfo) = ite(s.meta == nil, 0, s.meta.State)
+//@ pure storeIdOf(s *core.StoreInfo) = ite(s.meta == nil, 0, s.meta.Id)
+//@ pure storeStateOf(s *core.StoreInfo) = ite(s.meta == nil, 0, s.meta.State)
 
 // balance-region: the peer is moved (add, then remove) from the source store to a store handed out by the cluster
 // view that is Up and holds no peer of the region - in particular not the source itself - keeping the peer's role.
@@ -28,7 +28,7 @@ package schedulers
 //@   dispatch Filter.Target passT
 //@   requires s != nil && plan != nil && plan.cluster != nil && plan.region != nil && plan.region.meta != nil && plan.source != nil && nonnil(plan.region.meta.Peers) && (forall k :: {plan.region.meta.Peers[k]} 0 <= k && k < len(plan.region.meta.Peers) ==> allocated(plan.region.meta.Peers[k]))
 //@   loop 1 modifies plan.target, ghost evres
-//@   at Sort 1 after assert [candidates-are-up-stores-without-a-peer] forall i :: {r0.Stores[i]} 0 <= i && i < len(r0.Stores) ==> r0.Stores[i] != nil && ufb("clusterStore", plan.cluster, r0.Stores[i]) && sstate(r0.Stores[i]) == 0 && !hasPeerOn(plan.region, sid(r0.Stores[i]))
-//@   at CreateMovePeerOperator 1 assert [moves-to-an-up-store-without-a-peer] arg5 != nil && arg5.StoreId == sid(plan.target) && ufb("clusterStore", plan.cluster, plan.target) && sstate(plan.target) == 0 && !hasPeerOn(plan.region, arg5.StoreId) && arg2 == plan.region
-//@   at CreateMovePeerOperator 1 assert [from-the-source-keeping-the-role] callres("GetStorePeer", 1) != nil ==> arg4 == sid(plan.source) && arg5.Role == callres("GetStorePeer", 1).Role && arg5.StoreId != arg4
+//@   at Sort 1 after assert [candidates-are-up-stores-without-a-peer] forall i :: {r0.Stores[i]} 0 <= i && i < len(r0.Stores) ==> r0.Stores[i] != nil && ufb("clusterStore", plan.cluster, r0.Stores[i]) && storeStateOf(r0.Stores[i]) == 0 && !hasPeerOn(plan.region, storeIdOf(r0.Stores[i]))
+//@   at CreateMovePeerOperator 1 assert [moves-to-an-up-store-without-a-peer] arg5 != nil && arg5.StoreId == storeIdOf(plan.target) && ufb("clusterStore", plan.cluster, plan.target) && storeStateOf(plan.target) == 0 && !hasPeerOn(plan.region, arg5.StoreId) && arg2 == plan.region
+//@   at CreateMovePeerOperator 1 assert [from-the-source-keeping-the-role] callres("GetStorePeer", 1) != nil ==> arg4 == storeIdOf(plan.source) && arg5.Role == callres("GetStorePeer", 1).Role && arg5.StoreId != arg4
 //@   modifies *
